@@ -35,6 +35,14 @@ pub mod format {
         //@end
         //@extract biscuit-auth/src/format/schema.rs :: struct Proof
         //@end
+        impl PublicKey {
+            // ASSUMED (prost::Message derive): the getter of an `enumeration` field falls back to the default
+            // variant for an unknown tag
+            #[verifier::external_body]
+            pub fn algorithm(&self) -> (r: public_key::Algorithm)
+                ensures r == (if self.algorithm == 1 { public_key::Algorithm::Secp256r1 } else { public_key::Algorithm::Ed25519 })
+            { unimplemented!() }
+        }
         pub mod public_key {
             use vstd::prelude::*;
             //@extract biscuit-auth/src/format/schema.rs :: mod public_key :: enum Algorithm
@@ -275,7 +283,7 @@ pub mod format {
     }
 
     //@extract biscuit-auth/src/format/mod.rs :: fn block_signature_version
-    //@ sub previous_blocks_sig_versions\.max\(\) => crate::verif_std::verif_iter_max(previous_blocks_sig_versions)
+    //@ sub previous_blocks_sig_versions\.(max|min|last)\(\) => crate::verif_std::verif_iter_\1(previous_blocks_sig_versions)
     //@ ensures third_party: external_signature is Some ==> r == 1
     //@ ensures datalog33: block_version is Some && block_version->Some_0 >= 6 ==> r == 1
     //@ ensures non_ed25519: !(block_keypair is Ed25519 && next_keypair is Ed25519) ==> r == 1
